@@ -74,6 +74,18 @@ def make_exc(kind: str, label: str) -> BaseException:
     return EXC[kind](f'{kind}@{label}')
 
 
+def _payload(x):
+    """Payload spec (JSON) -> python values: {'$dt': iso} becomes a datetime."""
+    import datetime as _dt
+    if isinstance(x, dict):
+        if set(x) == {'$dt'}:
+            return _dt.datetime.fromisoformat(x['$dt'])
+        return {k: _payload(v) for k, v in x.items()}
+    if isinstance(x, list):
+        return [_payload(v) for v in x]
+    return x
+
+
 class SeededWeakSet(weakref.WeakSet):
     """WeakSet whose iteration order is creation order permuted by a seed.
 
@@ -173,11 +185,15 @@ class TracedBus(EventBus):
         if not self.wal_path:
             return await super()._default_wal_handler(event)
         tag = run.tag_of(event)
-        run.rec('wal_begin', bus=self._idx, ev=tag, path=list(event.event_path), parent=event.event_parent_id)
+        run.rec('wal_begin', bus=self._idx, ev=tag, path=list(event.event_path), parent=event.event_parent_id, eid=event.event_id, etype=event.event_type)
+        exc = None
         try:
             return await super()._default_wal_handler(event)
+        except BaseException as ex:
+            exc = type(ex).__name__
+            raise
         finally:
-            run.rec('wal_end', bus=self._idx, ev=tag)
+            run.rec('wal_end', bus=self._idx, ev=tag, exc=exc)
 
     def cleanup_event_history(self):
         run = self._run
@@ -317,7 +333,20 @@ class Run:
             d = self.sc['buses'][i]
             wal = None
             if d.get('wal') and self.workdir:
-                wal = d['wal'] if isinstance(d['wal'], str) and d['wal'].startswith('/') else os.path.join(self.workdir, f'{d["name"]}.jsonl')
+                kind = d['wal']
+                if kind == 'devfull':
+                    wal = '/dev/full'
+                elif kind == 'parentfile':  # the parent of the WAL path is a regular file: mkdir fails
+                    blocker = os.path.join(self.workdir, f'{d["name"]}.blocker')
+                    open(blocker, 'w').close()
+                    wal = os.path.join(blocker, 'wal.jsonl')
+                elif kind == 'isdir':  # the WAL path itself is a directory: open fails
+                    wal = os.path.join(self.workdir, f'{d["name"]}.dir')
+                    os.makedirs(wal, exist_ok=True)
+                elif kind == 'nested':  # parent directories do not exist yet
+                    wal = os.path.join(self.workdir, 'a', 'b', f'{d["name"]}.jsonl')
+                else:
+                    wal = os.path.join(self.workdir, f'{d["name"]}.jsonl')
             b = TracedBus(name=d['name'], parallel_handlers=bool(d.get('par')), max_history_size=d.get('hist'), wal_path=wal)
             b._run = self
             b._idx = i
@@ -353,11 +382,11 @@ class Run:
         if opts.get('parent'):
             kw['event_parent_id'] = opts['parent']
         if opts.get('payload'):
-            kw.update(opts['payload'])
+            kw.update(_payload(opts['payload']))
         e = TYPES[t](**kw)
         self.events[tag] = e
         self.tag_by_id[e.event_id] = tag
-        self.rec('mk', ev=tag, t=t, timeout=opts.get('timeout'), xparent=opts.get('parent'))
+        self.rec('mk', ev=tag, t=t, timeout=opts.get('timeout'), xparent=opts.get('parent'), payload=opts.get('payload'))
         return e
 
     # ---------------------------------------------------------------- shared op pieces
@@ -829,10 +858,12 @@ class Run:
         bs = {}
         for i, b in self.buses.items():
             wal = None
-            if b.wal_path:
+            if b.wal_path and not os.path.isfile(b.wal_path):
+                wal = None  # never read /dev/full or a directory
+            elif b.wal_path:
                 try:
                     with open(b.wal_path, encoding='utf-8') as f:
-                        wal = f.read()
+                        wal = f.read(50_000_000)
                 except FileNotFoundError:
                     wal = None
                 except Exception as ex:  # directory etc.
@@ -876,6 +907,7 @@ def run_scenario(sc: dict, workdir: str | None = None, keep_run: bool = False):
     lg.propagate = False
     _RUN = run
     hang = None
+    restore_io = _install_io_fault(sc.get('wal_fault'), run)
     try:
         loop.run_until_complete(run._main())
     except Hang as h:
@@ -895,6 +927,7 @@ def run_scenario(sc: dict, workdir: str | None = None, keep_run: bool = False):
                 except Exception:
                     pass
         left = hard_close(loop)
+        restore_io()
         _RUN = None
         lg.removeHandler(run.log)
         lg.propagate = old_prop
@@ -908,6 +941,40 @@ def run_scenario(sc: dict, workdir: str | None = None, keep_run: bool = False):
     run.events.clear()
     run.buses.clear()
     return tr, final, meta
+
+
+def _install_io_fault(fault, run):
+    """Source-free failpoint: make the n-th anyio.open_file() / the n-th AsyncFile.write() raise OSError."""
+    if not fault:
+        return lambda: None
+    import anyio
+
+    orig_open = anyio.open_file
+    state = {'open': 0, 'write': 0}
+
+    async def open_file(*a, **kw):
+        state['open'] += 1
+        if fault['kind'] == 'open' and state['open'] in fault['n']:
+            run.rec('io_fault', kind='open', n=state['open'])
+            raise OSError(5, 'injected open failure')
+        f = await orig_open(*a, **kw)
+        if fault['kind'] == 'write':
+            orig_write = f.write
+
+            async def write(data):
+                state['write'] += 1
+                if state['write'] in fault['n']:
+                    run.rec('io_fault', kind='write', n=state['write'])
+                    raise OSError(28, 'injected write failure')
+                return await orig_write(data)
+            f.write = write  # type: ignore[method-assign]
+        return f
+
+    anyio.open_file = open_file
+
+    def restore():
+        anyio.open_file = orig_open
+    return restore
 
 
 _gc_n = 0
